@@ -231,6 +231,96 @@ def _drop_local_annotations(tree: ast.Module) -> None:
                 unroll_in(st.body)
                 unroll_in(getattr(st, "orelse", []))
     unroll_in(tree.body)
+    for x in ast.walk(tree):
+        if isinstance(x, ast.FunctionDef):
+            _flatten_chains(x)
+
+
+def _is_chain_from_iterable(e: ast.AST) -> ast.expr | None:
+    if isinstance(e, ast.Call) and len(e.args) == 1 and not e.keywords and \
+            ast.unparse(e.func) in ("chain.from_iterable", "itertools.chain.from_iterable") and \
+            isinstance(e.args[0], (ast.GeneratorExp, ast.ListComp)) and len(e.args[0].generators) == 1 \
+            and not e.args[0].generators[0].is_async and isinstance(e.args[0].generators[0].target, ast.Name):
+        return e.args[0]
+    return None
+
+
+def _own_level_break(body: list) -> bool:
+    for st in body:
+        if isinstance(st, ast.Break):
+            return True
+        if isinstance(st, (ast.For, ast.While, ast.FunctionDef, ast.ClassDef)):
+            if isinstance(st, (ast.For, ast.While)) and _own_level_break(st.orelse):
+                return True
+            continue
+        for fld in ("body", "orelse", "finalbody", "handlers"):
+            sub = getattr(st, fld, None)
+            if isinstance(sub, list) and sub and isinstance(sub[0], ast.AST):
+                if isinstance(sub[0], ast.ExceptHandler):
+                    if any(_own_level_break(h.body) for h in sub):
+                        return True
+                elif _own_level_break(sub):
+                    return True
+    return False
+
+
+def _flatten_chains(fn: ast.FunctionDef) -> None:
+    """`for x in chain.from_iterable(G(i) for i in R): B`  ->  `for i in R: for x in G(i): B` (B has no `break`), also when
+    the chained iterator is first stored in a local that is used only as this loop's iterable."""
+    loads: dict[str, int] = {}
+    stores: dict[str, int] = {}
+    for n in ast.walk(fn):
+        if isinstance(n, ast.Name):
+            d = loads if isinstance(n.ctx, ast.Load) else stores
+            d[n.id] = d.get(n.id, 0) + 1
+
+    def block(body: list) -> None:
+        i = 0
+        while i < len(body):
+            st = body[i]
+            if isinstance(st, ast.For) and isinstance(st.iter, ast.Name) and loads.get(st.iter.id) == 1 \
+                    and stores.get(st.iter.id) == 1:
+                for j in range(i - 1, -1, -1):
+                    d = body[j]
+                    if isinstance(d, ast.Assign) and len(d.targets) == 1 and isinstance(d.targets[0], ast.Name) \
+                            and d.targets[0].id == st.iter.id and _is_chain_from_iterable(d.value) is not None:
+                        free = {x.id for x in ast.walk(d.value) if isinstance(x, ast.Name)}
+                        between = body[j + 1:i]
+                        written = {x.id for b in between for x in ast.walk(b) if isinstance(x, ast.Name)
+                                   and isinstance(x.ctx, (ast.Store, ast.Del))}
+                        calls = any(isinstance(x, ast.Call) and not (isinstance(x.func, ast.Attribute) and x.func.attr == "items")
+                                    for b in between for x in ast.walk(b))
+                        if not (free & written) and not calls:
+                            st.iter = d.value
+                            del body[j]
+                            i -= 1
+                        break
+            if isinstance(st, ast.For) and not st.orelse and not _own_level_break(st.body):
+                g = _is_chain_from_iterable(st.iter)
+                if g is not None:
+                    c = g.generators[0]
+                    inner = ast.For(st.target, g.elt, st.body, [])
+                    ast.copy_location(inner, st)
+                    ib: list = [inner]
+                    for cond in reversed(c.ifs):
+                        w = ast.If(cond, ib, [])
+                        ast.copy_location(w, st)
+                        ib = [w]
+                    outer = ast.For(ast.Name(c.target.id, ast.Store()), c.iter, ib, [])
+                    ast.copy_location(outer, st)
+                    ast.copy_location(outer.target, st)
+                    body[i] = st = outer
+            for fld in ("body", "orelse", "finalbody"):
+                sub = getattr(st, fld, None)
+                if isinstance(sub, list) and sub and isinstance(sub[0], ast.stmt) and not isinstance(st, (ast.FunctionDef, ast.ClassDef)):
+                    block(sub)
+            for h in getattr(st, "handlers", []) or []:
+                block(h.body)
+            i += 1
+
+    if any(isinstance(x, ast.Attribute) and x.attr == "from_iterable" for x in ast.walk(fn)):
+        block(fn.body)
+        ast.fix_missing_locations(fn)
 
 
 DYNAMIC_FEATURES = {"exec", "eval", "setattr", "__import__", "globals", "locals", "vars"}
